@@ -1,6 +1,7 @@
 """C02 - missing observations carry zero weight in every smoother."""
 from __future__ import annotations
 
+import sys
 import numpy as np
 from hypothesis import strategies as st
 
@@ -303,3 +304,10 @@ def run(ctx):
         sub_passthrough(case)
 
     ctx.given("passthrough", smoother_case(smooth.VARIANTS, nmax=40, few_valid=True), ctx.n(300, 3000), fn=f_pass)
+
+
+from harness import history as _history  # noqa: E402
+
+_history.install(sys.modules[__name__], {"whits": _history.q_whits, "whitsvc": _history.q_whitsvc, "whitswcv": _history.q_whitswcv},
+                 {"whits": _history.WHITS_ARGS, "whitsvc": _history.WHITSVC_ARGS, "whitswcv": _history.WHITSWCV_ARGS}, n=(120, 1500), dtypes=("int16",),
+                 attr_values=(-3000, 0, -9999), cells=_history.NDVI_CELLS)
